@@ -1,6 +1,6 @@
 #!/usr/bin/env python3
 """Writes the task text a mutation sub-agent gets (property text + its scratch worktree, nothing from /verif) into
-<prefix><PID>/_out/TASK.txt.   usage: tools/mkwave.py <prefix e.g. /tmp/mut8_> <variant: three|two> <PID>...
+<prefix><PID>/_out/TASK.txt.   usage: tools/mkwave.py <prefix e.g. /tmp/mut8_> <variant: three|two|two_far> <PID>...
 variant three: three changes, any kind (waves 1-8); variant two: one fault/configuration change and one interplay change,
 no boundary off-by-ones (wave 9)."""
 import json, os, sys
@@ -60,8 +60,15 @@ For each change k = 1, 2 write into {wt}/_out/<k>/ :
 
 Only report a change whose three "verified" facts you have actually observed. If a demo is timing dependent, make it deterministic (e.g. force the interleaving with your own synchronisation inside a user-supplied mutex/allocator/handler). Final answer: two lines, one per change, each a one-sentence summary.
 '''
+FAR = ("\nEarlier rounds of this exercise produced many changes in the allocate / deallocate / growth paths of "
+       "memory_pool.hpp, memory_stack.hpp and memory_arena.hpp and in free_list.cpp; this time look elsewhere first: the other "
+       "headers the property touches, src/*.cpp, detail/ headers, traits specialisations, constructors / destructors / "
+       "assignment operators, handlers and error classes, configuration macros. A change in one of the much visited "
+       "functions is acceptable only if it is of a kind you would not expect anybody to have tried.\n")
 prefix, variant = sys.argv[1], sys.argv[2]
 T = THREE if variant == "three" else TWO
+if variant == "two_far":
+    T = TWO.replace("\nFor each change k = 1, 2 write", FAR + "\nFor each change k = 1, 2 write")
 for pid in sys.argv[3:]:
     p = props[pid]
     wt = prefix + pid
